@@ -119,6 +119,10 @@ func (xp xpathImpl) resolveOperator(oper *xpath.Operator, ident string, s *Selec
 		if !aComparable || !bComparable {
 			return false, fmt.Errorf("'%s' has no order to compare with %s", ident, oper.Oper)
 		}
+		if a.Format() != b.Format() {
+			// e.g. the members of a union
+			return false, fmt.Errorf("'%s' holds a %s which has no order relative to %s %v", ident, a.Format(), b.Format(), b)
+		}
 		c := ac.Compare(bc)
 		switch oper.Oper {
 		case "<":
